@@ -50,10 +50,19 @@ PRIMITIVE_FUNCS = {"_full_matrix_size": (["int"], "int", "Py.fullMatrixSize")}
 RECORD_PATHS = {"bicmodel": {("arguments", "num_clusters"): ("num_clusters", "int"),
                              ("clusters", "[]", "train_inverse"): ("train_inverse", "arr2"),
                              ("clusters", "[]", "empirical_covariance"): ("empirical_covariance", "arr2"),
-                             ("point_labels",): ("point_labels", ("list", "int"))}}
+                             ("point_labels",): ("point_labels", ("list", "int"))},
+                # `model.clusters[k]` handed on to another function is represented by the index k (a cluster's identity)
+                "donormodel": {("arguments", "min_cluster_size"): ("min_cluster_size", "int")},
+                "llmodel": {("arguments", "num_clusters"): ("num_clusters", "int"),
+                            ("arguments", "window_size"): ("window_size", "int"),
+                            ("clusters", "[]"): ("__index__", "int"),
+                            ("point_labels",): ("point_labels", ("list", "int"))}}
 
-ATTRS = {"admmargs": {"window_size": "int", "num_data_series": "int", "rho": "scalar", "sparsity_weight": "lam"},
+ATTRS = {"admmargs": {"window_size": "int", "num_data_series": "int", "rho": "scalar", "sparsity_weight": "lam",
+                      "max_iterations": "int", "verbose": "bool", "rho_update": "rhocb"},
          "chmodel": {"clusters": ("list", "chcluster")},
+         "donormodel": {"clusters": ("list", "donorcluster")},
+         "donorcluster": {"size": "int", "computed_covariance": "arr2"},
          "chcluster": {"size": "int", "member_points": ("list", "int")}}
 
 
@@ -87,6 +96,10 @@ def lean_type(t):
         return "Py.Arr2 α"
     if t == "arr2int":
         return "Py.Arr2 Int"
+    if t == "mask2":
+        return "Py.Mask2"
+    if t == "rhocb":
+        return "Option (α → α → α → α → α → α)"
     if t == "sov":
         return "Py.ScalarOrVec α"
     if t == "lam":
@@ -95,6 +108,12 @@ def lean_type(t):
         return "Py.ADMMArgs α"
     if t == "bicmodel":
         return "Py.BicModel α"
+    if t == "llmodel":
+        return "Py.LlModel"
+    if t == "donormodel":
+        return "Py.DonorModel α"
+    if t == "donorcluster":
+        return "Py.DonorCluster α"
     if t == "chmodel":
         return "Py.ChModel"
     if t == "chcluster":
@@ -157,11 +176,50 @@ SPECS = [
                  "num_blocks": "int"}, ret="scalar", field=True),
     dict(file="admm/solver.py", func="admm_update_z",
          params={"args": "admmargs", "u": "arr1", "x": "arr1"}, ret="arr1", field=True),
+    dict(file="admm/solver.py", func="admm_update_u",
+         params={"u": "arr1", "x": "arr1", "z": "arr1"}, ret="arr1", field=True),
+    dict(file="admm/solver.py", func="run_admm_optimization",
+         params={"args": "admmargs", "empirical_covariance": "arr2"}, ret="arr1", field=True,
+         consts={"xUpdate": "Py.ADMMArgs α → Py.Arr1 α → Py.Arr1 α → Py.Arr2 α → Py.Arr1 α",
+                 "checkConv": "Py.ADMMArgs α → Py.Arr1 α → Py.Arr1 α → Py.Arr1 α → Py.Arr1 α → Bool × α × α × α × α"},
+         # the X update (an eigendecomposition) and the convergence check (norms, a square root) are function parameters
+         externs={"admm_update_x": ("xUpdate", ["admmargs", "arr1", "arr1", "arr2"], "arr1"),
+                  "check_convergence": ("checkConv", ["admmargs", "arr1", "arr1", "arr1", "arr1"],
+                                        ("tuple", "bool", "scalar", "scalar", "scalar", "scalar"))}),
     dict(file="cluster_metrics.py", func="calinski_harabasz_index",
          params={"stacked_training_data": "arr2", "model": "chmodel"}, ret="scalar", field=True),
     dict(file="cluster_metrics.py", func="bayesian_information_criterion",
          params={"model": "bicmodel"}, ret="scalar", field=True,
          consts={"logdetOf": "Py.Arr2 α → α", "logOfInt": "Int → α"}),
+    dict(file="graphical_lasso.py", func="_zero_small_elements",
+         params={"array": "arr2", "epsilon": "scalar", "copy": "bool"}, ret="arr2", field=True, defaults_ok=True),
+    dict(file="cluster_maintenance.py", func="_find_point_donor",
+         params={"model": "donormodel", "potential_donor_ids": ("list", "int")}, ret=("tuple", "int", ("list", "int")),
+         field=True, while_fuel="len(remaining_donors) + 1",
+         # protocol form: minimum size, cluster sizes, candidate ids (the covariances are not read)
+         exec=("  | \"_find_point_donor\", [a0, a1, a2] => do\n"
+               "      let m ← parseInt? a0; let sz ← parseInts? a1; let ids ← parseInts? a2\n"
+               "      let cl : List (Py.DonorCluster Rat) := sz.map (fun (s : Int) => ⟨s, ⟨1, 1, fun _ _ => 0⟩⟩)\n"
+               "      pure (match Gen._find_point_donor (α := Rat) ⟨m, cl⟩ ids with\n"
+               "        | .ok v => \"ok \" ++ toString v.1 ++ \" \" ++ showInts v.2\n"
+               "        | .error e => \"err \" ++ e)")),
+    dict(file="cluster_maintenance.py", func="_find_ranked_donor_cluster_ids",
+         params={"model": "donormodel"}, ret=("list", "int"), field=True, consts={"normOf": "Py.Arr2 α → α"},
+         # protocol form: minimum size, cluster sizes, spreads; every covariance is the 1 x 1 matrix [[spread]] (spread >= 0),
+         # whose norm is its entry
+         exec=("  | \"_find_ranked_donor_cluster_ids\", [a0, a1, a2] => do\n"
+               "      let m ← parseInt? a0; let sz ← parseInts? a1; let sp ← parseRats? a2\n"
+               "      let cl : List (Py.DonorCluster Rat) := (sz.zip sp).map (fun (p : Int × Rat) => ⟨p.1, ⟨1, 1, fun _ _ => p.2⟩⟩)\n"
+               "      pure (\"ok \" ++ showInts (Gen._find_ranked_donor_cluster_ids (α := Rat) (fun M => M.get 0 0) ⟨m, cl⟩))")),
+    dict(file="main_loop.py", func="_compute_log_likelihood_by_cluster",
+         params={"stacked_training_data": "arr2", "model": "llmodel"}, ret=("list", ("list", "scalar")), field=True,
+         consts={"pointLL": "Py.Arr1 α → Int → Int → Rat → α"}, empty_elt="scalar",
+         # protocol form: cluster count, labels, the per-point log-likelihoods (handed over as the one-column data array:
+         # the per-point likelihood function reads the value off its window)
+         exec=("  | \"_compute_log_likelihood_by_cluster\", [a0, a1, a2] => do\n"
+               "      let K ← parseInt? a0; let labels ← parseInts? a1; let ll ← parseRats? a2\n"
+               "      let data : Py.Arr2 Rat := Py.Arr2.ofLists (ll.map (fun (v : Rat) => [v])) 1\n"
+               "      pure (\"ok \" ++ showRatss (Gen._compute_log_likelihood_by_cluster (α := Rat) (fun row _ _ _ => Py.Arr1.get1 row 0) data ⟨K, 1, labels⟩))")),
     dict(file="likelihood.py", func="point_log_likelihood_fast",
          params={"point": "arr1", "mu_i": "arr1", "theta_i": "arr2", "log_det_theta": "scalar", "window_size": "int",
                  "num_data_series": "int"}, ret="scalar", field=True, consts=["log2pi"]),
@@ -197,6 +255,8 @@ def assigned_names(stmts):
                 add(base.id)
             else:
                 raise Unsupported("store through a non-name")
+        elif isinstance(t, ast.Attribute) and isinstance(t.value, ast.Name):
+            add(t.value.id)                      # `record.field = v` rebinds the record
         else:
             raise Unsupported(f"assignment target {ast.dump(t)}")
 
@@ -212,12 +272,16 @@ def assigned_names(stmts):
             target(s.target)
             for n in assigned_names(s.body):
                 add(n)
-        elif isinstance(s, ast.If):
+        elif isinstance(s, (ast.If, ast.While)):
             for n in assigned_names(s.body) + assigned_names(s.orelse):
                 add(n)
         elif isinstance(s, ast.Expr) and isinstance(s.value, ast.Call) and isinstance(s.value.func, ast.Attribute) \
                 and s.value.func.attr in ("append", "pop") and isinstance(s.value.func.value, ast.Name):
             add(s.value.func.value.id)
+        elif isinstance(s, ast.Expr) and isinstance(s.value, ast.Call) and isinstance(s.value.func, ast.Attribute) \
+                and s.value.func.attr == "append" and isinstance(s.value.func.value, ast.Subscript) \
+                and isinstance(s.value.func.value.value, ast.Name):
+            add(s.value.func.value.value.id)
     return out
 
 
@@ -273,6 +337,7 @@ class FuncTranslator:
         self.may_raise = False
         self.uses_ok = False
         self.in_err_loop = False
+        self.local_funcs = {}
         self.loop_depth = 0
         self.promoted = set()
         self.tmp = 0
@@ -299,6 +364,8 @@ class FuncTranslator:
             if isinstance(e.operand, ast.Constant) and isinstance(e.operand.value, int):
                 return f"(-{e.operand.value} : Int)", "int"
             s, t = self.expr(e.operand)
+            if t == "scalar":
+                return f"((0 : α) - {s})", t       # the scalar type is given by its ring operations; -x is 0 - x
             return f"(-{s})", t
         if isinstance(e, ast.UnaryOp) and isinstance(e.op, ast.Not):
             s, t = self.expr(e.operand)
@@ -310,6 +377,9 @@ class FuncTranslator:
                 raise Unsupported("chained comparison")
             l, lt = self.expr(e.left)
             r, rt = self.expr(e.comparators[0])
+            if lt == "arr2" and rt == "scalar" and type(e.ops[0]) in (ast.Lt, ast.Gt):
+                # elementwise comparison of a matrix with a number: a boolean mask
+                return f"(Py.Arr2.{'ltScalar' if type(e.ops[0]) is ast.Lt else 'gtScalar'} {l} {r})", "mask2"
             op = {ast.Lt: "<", ast.LtE: "≤", ast.Gt: ">", ast.GtE: "≥", ast.Eq: "=", ast.NotEq: "≠"}.get(type(e.ops[0]))
             if op is None:
                 raise Unsupported("comparison operator")
@@ -325,6 +395,9 @@ class FuncTranslator:
         if isinstance(e, ast.List):
             parts = [self.expr(x) for x in e.elts]
             if not parts:
+                if self.spec.get("empty_elt"):
+                    et = self.spec["empty_elt"]
+                    return f"([] : List ({lean_type(et)}))", ("list", et)
                 return "[]", ("list", None)
             return "[" + ", ".join(p[0] for p in parts) + "]", ("list", parts[0][1])
         if isinstance(e, ast.ListComp):
@@ -355,6 +428,10 @@ class FuncTranslator:
             if isinstance(e.value, ast.Name) and self.env.get(e.value.id) in ATTRS \
                     and e.attr in ATTRS[self.env[e.value.id]]:
                 return f"{e.value.id}.{e.attr}", ATTRS[self.env[e.value.id]][e.attr]
+            if isinstance(e.value, ast.Subscript):
+                s0, t0 = self.expr(e.value)
+                if isinstance(t0, str) and t0 in ATTRS and e.attr in ATTRS[t0] and not isinstance(s0, tuple):
+                    return f"({s0}).{e.attr}", ATTRS[t0][e.attr]
             raise Unsupported(f"attribute {e.attr}")
         if isinstance(e, ast.Call):
             return self.call(e)
@@ -389,10 +466,14 @@ class FuncTranslator:
             i, it = self.expr(idx)
             if it != "int":
                 raise Unsupported("record index")
+            if fld == "__index__":
+                return i, typ
             return f"(Py.getItem {node.id}.{fld} {i})", typ
         return f"{node.id}.{fld}", typ
 
     def as_bool(self, s, t):
+        if t == "rhocb":
+            return f"(Option.isSome {s})"        # `if callback:` on an optional callback
         if t != "bool":
             raise Unsupported("non-boolean condition")
         return s
@@ -434,6 +515,10 @@ class FuncTranslator:
             if lt == "arr1" and rt == "arr1":
                 return f"(Py.dot {l} {r})", "scalar"
             raise Unsupported(f"matmul of {lt}, {rt}")
+        if self.spec.get("field") and op is ast.Mult and lt == "scalar" and rt == "arr1":
+            return f"(Py.Arr1.scale {l} {r})", "arr1"
+        if op is ast.BitAnd and lt == "mask2" and rt == "mask2":
+            return f"(Py.Mask2.and {l} {r})", "mask2"
         if op is ast.Sub and lt == "arr1" and rt == "arr1":
             return f"(Py.Arr1.sub {l} {r})", "arr1"
         if op is ast.Add and lt == "arr2" and rt == "arr2":
@@ -480,7 +565,7 @@ class FuncTranslator:
         raise Unsupported(f"binary operator {op.__name__} on {lt}, {rt}")
 
     def listcomp(self, e):
-        if len(e.generators) != 1 or e.generators[0].ifs or e.generators[0].is_async:
+        if len(e.generators) != 1 or len(e.generators[0].ifs) > 1 or e.generators[0].is_async:
             raise Unsupported("comprehension shape")
         g = e.generators[0]
         it, itt = self.expr(g.iter)
@@ -488,6 +573,10 @@ class FuncTranslator:
             raise Unsupported("comprehension over a non-list")
         saved = dict(self.env)
         binder, prelude = self.bind_target(g.target, itt[1], "x_")
+        if g.ifs:
+            # `[f(x) for x in xs if c(x)]`: filter, then map
+            cond = self.as_bool(*self.pure_expr(g.ifs[0]))
+            it = f"(List.filter (fun {binder} => {prelude}{cond}) {it})"
         body, bt = self.expr(e.elt)
         self.env = saved
         if isinstance(body, tuple):
@@ -550,6 +639,8 @@ class FuncTranslator:
             i, it = self.expr(sl)
             if it != "int":
                 raise Unsupported("list index type")
+            if bt[1] == "scalar":
+                return f"(Py.getItemZ {base} {i})", bt[1]
             return f"(Py.getItem {base} {i})", bt[1]
         if bt == "arr1":
             i, it = self.expr(sl)
@@ -612,6 +703,8 @@ class FuncTranslator:
             name = f.id
         elif isinstance(f, ast.Attribute) and isinstance(f.value, ast.Name):
             name = f"{f.value.id}.{f.attr}"
+        elif isinstance(f, ast.Attribute) and isinstance(f.value, ast.Attribute) and isinstance(f.value.value, ast.Name):
+            name = f"{f.value.value.id}.{f.value.attr}.{f.attr}"
         args = e.args
         kw = {k.arg: k.value for k in e.keywords}
         if name is None and isinstance(f, ast.Attribute) and f.attr in ("reshape", "diagonal"):
@@ -660,6 +753,53 @@ class FuncTranslator:
             if t == ("list", "int"):
                 return f"(Py.accumulate {s})", t
             raise Unsupported("accumulate of " + str(t))
+        if name == "sorted" and len(args) == 1 and set(kw) == {"key", "reverse"} and isinstance(kw["reverse"], ast.Constant) \
+                and kw["reverse"].value is True and isinstance(kw["key"], ast.Name) and kw["key"].id in self.local_funcs:
+            xs, xt = self.expr(args[0])
+            if not (isinstance(xt, tuple) and xt[0] == "list") or isinstance(xs, tuple):
+                raise Unsupported("sorted of " + str(xt))
+            arg, body = self.local_funcs[kw["key"].id]
+            saved = dict(self.env)
+            self.env[arg] = xt[1]
+            kb, kt = self.pure_expr(body)
+            self.env = saved
+            if kt != "scalar":
+                raise Unsupported("sort key of type " + str(kt))
+            # sorted(..., reverse=True) is stable: equal keys keep their original order
+            return f"(Py.sortedDescBy (fun {mangle(arg)} => {kb}) {xs})", xt
+        if name == "np.linalg.norm" and len(args) == 1 and not kw and "normOf" in (self.spec.get("consts") or []):
+            a, at = self.expr(args[0])
+            if at == "arr2":
+                return f"(normOf {a})", "scalar"
+            raise Unsupported("norm of " + str(at))
+        ext = (self.spec.get("externs") or {}).get(name)
+        if ext is not None and not kw:
+            cname, ptypes, rtype = ext
+            parts = [self.expr(a) for a in args]
+            if [p_[1] for p_ in parts] != list(ptypes) or any(isinstance(p_[0], tuple) for p_ in parts):
+                raise Unsupported(f"arguments of {name}: {[p_[1] for p_ in parts]}")
+            return f"({cname} " + " ".join(p_[0] for p_ in parts) + ")", rtype
+        if name == "args.rho_update" and len(args) == 5 and not kw and self.env.get("args") == "admmargs":
+            parts = [self.expr(a) for a in args]
+            if any(p_[1] != "scalar" for p_ in parts):
+                raise Unsupported("callback arguments")
+            return "(Py.callRhoUpdate args.rho_update " + " ".join(p_[0] for p_ in parts) + ")", "scalar"
+        if name == "np.copy" and len(args) == 1 and not kw:
+            a, at = self.expr(args[0])
+            if at in ("arr1", "arr2"):
+                return a, at                      # arrays are values here: a copy is the array
+            raise Unsupported("np.copy of " + str(at))
+        if name == "enumerate" and len(args) == 1 and not kw:
+            s_, t_ = self.expr(args[0])
+            if isinstance(t_, tuple) and t_[0] == "list":
+                return f"(Py.enumerate {s_})", ("list", ("tuple", "int", t_[1]))
+            raise Unsupported("enumerate of " + str(t_))
+        if name == "likelihood.point_log_likelihood" and len(args) == 4 and not kw \
+                and "pointLL" in (self.spec.get("consts") or []):
+            parts = [self.expr(a) for a in args]
+            if [p_[1] for p_ in parts] != ["arr1", "int", "int", "rat"]:
+                raise Unsupported("point_log_likelihood arguments " + str([p_[1] for p_ in parts]))
+            return "(pointLL " + " ".join(p_[0] for p_ in parts) + ")", "scalar"
         if name == "numba_guard.prange":
             name = "range"                       # a parallel range is a range (C15: the iterations write disjoint cells)
         if name == "range":
@@ -808,7 +948,8 @@ class FuncTranslator:
         for k, s in enumerate(stmts):
             if isinstance(s, ast.Expr) and isinstance(s.value, ast.Constant) and isinstance(s.value.value, str):
                 continue                                            # docstring
-            if isinstance(s, ast.Assign) and len(s.targets) == 1:
+            if isinstance(s, ast.Assign) and len(s.targets) == 1 \
+                    and not (isinstance(s.value, ast.Constant) and s.value.value is None):
                 lines += self.assign(s.targets[0], s.value, pad, top)
             elif isinstance(s, ast.AugAssign) and isinstance(s.target, ast.Name):
                 fake = ast.BinOp(left=ast.Name(id=s.target.id, ctx=ast.Load()), op=s.op, right=s.value)
@@ -831,8 +972,65 @@ class FuncTranslator:
                     lines.append(f"{pad}let {nm} := Py.append {nm} {v}")
                 else:
                     if s.value.args:
+                        if len(s.value.args) == 1 and isinstance(s.value.args[0], ast.Constant) and s.value.args[0].value == 0:
+                            lines.append(f"{pad}let {nm} := Py.popFirst {nm}")
+                            continue
                         raise Unsupported("pop with an index")
                     lines.append(f"{pad}let {nm} := Py.popLast {nm}")
+            elif isinstance(s, ast.Expr) and isinstance(s.value, ast.Call) and isinstance(s.value.func, ast.Attribute) \
+                    and s.value.func.attr == "append" and isinstance(s.value.func.value, ast.Subscript) \
+                    and isinstance(s.value.func.value.value, ast.Name) and len(s.value.args) == 1:
+                # `xs[i].append(v)` on a list of lists
+                nm = s.value.func.value.value.id
+                t = self.env.get(nm)
+                if not (isinstance(t, tuple) and t[0] == "list" and isinstance(t[1], tuple) and t[1][0] == "list"):
+                    raise Unsupported("append through an index on a non-list-of-lists")
+                i, it = self.pure_expr(s.value.func.value.slice)
+                if it != "int":
+                    raise Unsupported("list index type")
+                v, vt = self.pure_expr(s.value.args[0])
+                if t[1][1] is None:
+                    t = ("list", ("list", vt))
+                    self.env[nm] = t
+                elif vt != t[1][1]:
+                    raise Unsupported("append of another type")
+                lines.append(f"{pad}let {nm} := Py.setItem {nm} {i} (Py.append (Py.getItem {nm} {i}) {v})")
+            elif isinstance(s, ast.FunctionDef) and len(s.body) == 1 and isinstance(s.body[0], ast.Return) \
+                    and not (s.args.vararg or s.args.kwarg or s.args.kwonlyargs or s.args.defaults) \
+                    and len(s.args.args) == 1 and not s.decorator_list:
+                # a one-line local function (`def key(i): return table[i]`): kept as an expression, inlined at its use
+                self.local_funcs[s.name] = (s.args.args[0].arg, s.body[0].value)
+            elif isinstance(s, ast.While) and top and not s.orelse and self.spec.get("while_fuel"):
+                lines += self.while_loop(s, ind, stmts[k + 1:])
+                return lines
+            elif isinstance(s, ast.Assign) and len(s.targets) == 1 and isinstance(s.targets[0], ast.Name) \
+                    and isinstance(s.value, ast.Constant) and s.value.value is None:
+                # `v = None` before a loop that assigns it: the variable starts out with the default value of the type its
+                # first real assignment gives it (it is never read before that assignment in the code translated here)
+                nm = s.targets[0].id
+                typ = None
+                for n_ in ast.walk(self.fdef):
+                    if isinstance(n_, ast.Assign) and len(n_.targets) == 1 and isinstance(n_.targets[0], ast.Name) \
+                            and n_.targets[0].id == nm and isinstance(n_.value, ast.Name) and n_.value.id in self.env:
+                        typ = self.env[n_.value.id]
+                        break
+                if typ != "arr1":
+                    raise Unsupported("None-initialised variable of unknown type")
+                # never read while it is None: between this statement and the loop nothing mentions it, and the loop body
+                # assigns it in its FIRST statement
+                nxt = stmts[k + 1] if k + 1 < len(stmts) else None
+                if not (isinstance(nxt, ast.For) and nxt.body and isinstance(nxt.body[0], ast.Assign)
+                        and len(nxt.body[0].targets) == 1 and isinstance(nxt.body[0].targets[0], ast.Name)
+                        and nxt.body[0].targets[0].id == nm and nm not in used_names([nxt.body[0].value])
+                        and nm not in used_names([nxt.iter])):
+                    raise Unsupported("None-initialised variable that may be read before its first assignment")
+                self.env[nm] = typ
+                lines.append(f"{pad}let {nm} : Py.Arr1 α := Py.Arr1.const 0 (0 : α)")
+            elif isinstance(s, ast.Expr) and self.is_log_call(s.value):
+                continue                                            # diagnostics with pure arguments: no effect on values
+            elif isinstance(s, ast.For) and top and any(isinstance(n_, ast.Break) for n_ in ast.walk(s)):
+                lines += self.for_loop_break(s, ind, stmts[k + 1:])
+                return lines
             elif isinstance(s, ast.For):
                 lines += self.for_loop(s, ind, stmts[k + 1:], top)
             elif isinstance(s, ast.If) and len(s.body) == 1 and isinstance(s.body[0], ast.Continue) and not s.orelse \
@@ -872,6 +1070,9 @@ class FuncTranslator:
                 else:
                     self.uses_ok = True
                     lines.append(f"{pad}let ok_ := ok_ && {c}")
+            elif isinstance(s, ast.Raise) and top and k == len(stmts) - 1:
+                lines.append(f"{pad}throw \"{self.raise_name(s)}\"")
+                self.may_raise = True
             elif isinstance(s, ast.Return):
                 if not top or k != len(stmts) - 1 or s.value is None:
                     raise Unsupported("return that is not the last statement of the function")
@@ -883,6 +1084,177 @@ class FuncTranslator:
         if tail_vars is not None:
             lines.append(pad + self.tuple_of(tail_vars))
         return lines
+
+    def is_log_call(self, e):
+        """`LOGGER.debug(fmt, a, b, ...)`: a diagnostic whose arguments are names, constants, attributes or arithmetic"""
+        if not (isinstance(e, ast.Call) and isinstance(e.func, ast.Attribute) and isinstance(e.func.value, ast.Name)
+                and e.func.value.id == "LOGGER" and e.func.attr in ("debug", "info", "warning", "error")):
+            return False
+        for a in list(e.args) + [k.value for k in e.keywords]:
+            for n_ in ast.walk(a):
+                if isinstance(n_, (ast.Call, ast.NamedExpr, ast.Yield, ast.Await, ast.Lambda, ast.ListComp, ast.GeneratorExp)):
+                    return False
+        return True
+
+    def for_loop_break(self, s, ind, rest):
+        """`for x in xs:` at function level whose body contains `break` (and possibly `continue`, raising calls, record
+        field stores): a monadic fold `Py.forEachE` over the loop-carried variables plus a flag `brk_` that, once set,
+        turns the remaining iterations into no-ops; the body is translated in continuation style, every path ending in the
+        new state."""
+        pad = "  " * ind
+        if s.orelse:
+            raise Unsupported("for-else")
+        it, itt = self.pure_expr(s.iter)
+        if not (isinstance(itt, tuple) and itt[0] == "list"):
+            raise Unsupported("loop over a non-list")
+        body_assigned = assigned_names(s.body)
+        tnames = [n.id for n in ast.walk(s.target) if isinstance(n, ast.Name)]
+        carried = [n for n in body_assigned if n in self.env and n not in tnames]
+        leaked = [n for n in body_assigned if n not in self.env and n not in tnames and n in used_names(rest)]
+        if leaked:
+            raise Unsupported(f"loop-local names used after the loop: {leaked}")
+        if not carried:
+            raise Unsupported("loop without effect")
+        self.env["brk_"] = "bool"
+        allv = carried + ["brk_"]
+        sigma = " × ".join(f"({lean_type(self.env[n])})" for n in allv)
+        saved = dict(self.env)
+        binder, prelude = self.bind_target(s.target, itt[1], "it_")
+        self.tmp += 1
+        st, res = f"s_{self.tmp}", f"r_{self.tmp}"
+        self.may_raise = True
+        self.loop_depth += 1
+        body = self.cps_body(list(s.body), allv, ind + 4)
+        self.loop_depth -= 1
+        for n in carried:
+            if self.env.get(n) != saved.get(n):
+                raise Unsupported(f"loop-carried variable {n} changes type")
+        self.env = saved
+        lines = [f"{pad}let brk_ := false",
+                 f"{pad}let {res} ← Py.forEachE {it} (({self.tuple_of(allv)}) : {sigma}) (fun {binder} ({st} : {sigma}) => do"]
+        lines += [f"{pad}    " + l.strip() for l in self.unpack(allv, st, "")]
+        if prelude:
+            lines.append(f"{pad}    {prelude.rstrip('; ')}")
+        lines.append(f"{pad}    if brk_ then pure {st}")
+        lines.append(f"{pad}    else")
+        lines += body
+        lines[-1] += ")"
+        lines += self.unpack(allv, res, pad)
+        lines += self.block(rest, ind, top=True)
+        return lines
+
+    def cps_body(self, stmts, allv, ind):
+        """statements of a loop body in do-notation, every path ending in `pure (state)`"""
+        pad = "  " * ind
+        done = [f"{pad}pure ({self.tuple_of(allv)})"]
+        if not stmts:
+            return done
+        s0, rest = stmts[0], stmts[1:]
+        if isinstance(s0, ast.Expr) and (isinstance(s0.value, ast.Constant) or self.is_log_call(s0.value)):
+            return self.cps_body(rest, allv, ind)
+        if isinstance(s0, ast.Break):
+            return [f"{pad}let brk_ := true"] + done
+        if isinstance(s0, ast.Continue):
+            return done
+        if isinstance(s0, ast.If):
+            c = self.as_bool(*self.pure_expr(s0.test))
+            saved = dict(self.env)
+            a = self.cps_body(list(s0.body) + rest, allv, ind + 1)
+            self.env = dict(saved)
+            b = self.cps_body(list(s0.orelse) + rest, allv, ind + 1)
+            self.env = saved
+            return [f"{pad}if {c} then"] + a + [f"{pad}else"] + b
+        if isinstance(s0, ast.Assign) and len(s0.targets) == 1 and isinstance(s0.targets[0], ast.Attribute) \
+                and isinstance(s0.targets[0].value, ast.Name) and self.env.get(s0.targets[0].value.id) in ATTRS:
+            rec, fld = s0.targets[0].value.id, s0.targets[0].attr
+            ft = ATTRS[self.env[rec]].get(fld)
+            v, vt = self.pure_expr(s0.value)
+            if ft is None or vt != ft:
+                raise Unsupported("record field store")
+            return [f"{pad}let {rec} := {{ {rec} with {fld} := {v} }}"] + self.cps_body(rest, allv, ind)
+        if isinstance(s0, ast.Assign) and len(s0.targets) == 1 and isinstance(s0.targets[0], ast.Tuple) \
+                and len(s0.targets[0].elts) > 2 and all(isinstance(e_, ast.Name) for e_ in s0.targets[0].elts):
+            v, vt = self.pure_expr(s0.value)
+            names = [e_.id for e_ in s0.targets[0].elts]
+            if not (isinstance(vt, tuple) and vt[0] == "tuple" and len(vt) - 1 == len(names)):
+                raise Unsupported("tuple assignment")
+            self.tmp += 1
+            tmp = f"t_{self.tmp}"
+            for n_, ty in zip(names, vt[1:]):
+                self.env[n_] = ty
+            return [f"{pad}let {tmp} := {v}"] + self.unpack(names, tmp, pad) + self.cps_body(rest, allv, ind)
+        if isinstance(s0, (ast.While, ast.For, ast.Raise, ast.Assert, ast.Return)):
+            raise Unsupported(f"{type(s0).__name__} inside a loop with break")
+        return self.block([s0], ind, top=True) + self.cps_body(rest, allv, ind)
+
+    def while_loop(self, s, ind, rest):
+        """`while c: body` at function level, `return` allowed anywhere in the body: `Py.whileRet fuel cond body state`
+        with the loop-carried variables as state; the body's value is `Sum.inl v` for `return v` and `Sum.inr state` for
+        falling through.  The fuel is the expression the spec names (a bound on the number of iterations; running out of
+        it is the error "LoopFuelExhausted", which the equivalence theorem shows cannot happen)."""
+        pad = "  " * ind
+        assigned = assigned_names(s.body)
+        carried = [n for n in assigned if n in self.env]
+        local = [n for n in assigned if n not in self.env]
+        if not carried:
+            raise Unsupported("while loop without state")
+        if set(local) & used_names(rest):
+            raise Unsupported("a variable first bound inside a while loop is used after it")
+        fuel, ft = self.pure_expr(ast.parse(self.spec["while_fuel"], mode="eval").body)
+        if ft != "int":
+            raise Unsupported("fuel type")
+        rho = lean_type(self.spec["ret"])
+        sigma = " × ".join(f"({lean_type(self.env[n])})" for n in carried)
+        self.tmp += 1
+        st, w = f"st_{self.tmp}", f"w_{self.tmp}"
+        saved = dict(self.env)
+        cond = self.as_bool(*self.pure_expr(s.test))
+        unpack = "".join(l.strip() + "; " for l in self.unpack(carried, st, ""))
+        body = self.while_body(list(s.body), carried, ind + 3)
+        self.env = saved
+        self.may_raise = True
+        self.ret_type = self.spec["ret"]
+        lines = [f"{pad}let {w} := Py.whileRet (Int.toNat {fuel})",
+                 f"{pad}    (fun ({st} : {sigma}) => {unpack}{cond})",
+                 f"{pad}    (fun ({st} : {sigma}) => {unpack}(("]
+        lines += body
+        lines[-1] += f") : Sum ({rho}) ({sigma})))"
+        lines.append(f"{pad}    {self.tuple_of(carried)}")
+        lines.append(f"{pad}match {w} with")
+        lines.append(f"{pad}| none => throw \"LoopFuelExhausted\"")
+        lines.append(f"{pad}| some (Sum.inl r_) => RETURN r_")
+        lines.append(f"{pad}| some (Sum.inr {st}) =>")
+        lines += [f"{pad}  " + l.strip() for l in self.unpack(carried, st, "")]
+        lines += self.block(rest, ind + 1, top=True)
+        return lines
+
+    def while_body(self, stmts, carried, ind):
+        pad = "  " * ind
+        if not stmts:
+            return [f"{pad}Sum.inr {self.tuple_of(carried)}"]
+        s0, rest = stmts[0], stmts[1:]
+        if isinstance(s0, ast.Expr) and isinstance(s0.value, ast.Constant):
+            return self.while_body(rest, carried, ind)
+        if isinstance(s0, ast.Return):
+            if s0.value is None:
+                raise Unsupported("bare return")
+            v, t = self.pure_expr(s0.value)
+            if t != self.spec["ret"]:
+                raise Unsupported(f"return type {t} inside a loop, expected {self.spec['ret']}")
+            return [f"{pad}Sum.inl {v}"]
+        if isinstance(s0, ast.If):
+            c = self.as_bool(*self.pure_expr(s0.test))
+            saved = dict(self.env)
+            a = self.while_body(list(s0.body) + rest, carried, ind + 1)
+            self.env = dict(saved)
+            b = self.while_body(list(s0.orelse) + rest, carried, ind + 1)
+            self.env = saved
+            a[-1] += ")"
+            b[-1] += ")"
+            return [f"{pad}if {c} then ("] + a + [f"{pad}else ("] + b
+        if isinstance(s0, (ast.While, ast.For, ast.Raise, ast.Assert, ast.Continue, ast.Break)):
+            raise Unsupported(f"{type(s0).__name__} inside a while loop")
+        return self.block([s0], ind) + self.while_body(rest, carried, ind)
 
     def raise_name(self, r):
         exc = r.exc
@@ -974,6 +1346,11 @@ class FuncTranslator:
                 raise Unsupported("vector store index")
             if bt == "arr2" and not isinstance(sl, (ast.Tuple, ast.Slice)):
                 i, it = self.pure_expr(sl)
+                if it == "mask2":
+                    fill = {"(0 : Int)": "(0 : α)", "(1 : Int)": "(1 : α)"}.get(v, v if vt == "scalar" else None)
+                    if fill is None:
+                        raise Unsupported("masked store value")
+                    return [f"{pad}let {nm} := Py.Arr2.setWhere {nm} {i} {fill}"]
                 if it == ("tuple", ("list", "int"), ("list", "int")) and vt == "arr1":
                     return [f"{pad}let {nm} := Py.Arr2.setAt2 {nm} {i} {v}"]
                 raise Unsupported("matrix store through this index")
@@ -1177,7 +1554,7 @@ class FuncTranslator:
         names = [a.arg for a in fd.args.args]
         if names != list(self.spec["params"]):
             raise Unsupported(f"parameters {names}")
-        if fd.args.vararg or fd.args.kwarg or fd.args.kwonlyargs or fd.args.defaults:
+        if fd.args.vararg or fd.args.kwarg or fd.args.kwonlyargs or (fd.args.defaults and not self.spec.get("defaults_ok")):
             raise Unsupported("parameter form")
         self.ret_type = None
         body = self.type_dispatch(fd.body)
@@ -1216,6 +1593,8 @@ def _parse_for(t, tok, var):
         return f"let {var} ← parseInts? {tok}", var
     if t == "scalar":
         return f"let {var} ← parseRat? {tok}", var
+    if t == "bool":
+        return f"let {var} ← (match {tok} with | \"true\" => some true | \"false\" => some false | _ => none)", var
     if t == "arr1":
         return f"let {var} ← parseRats? {tok}", f"(Py.Arr1.ofList {var} : Py.Arr1 Rat)"
     if t == "arr2":
@@ -1237,7 +1616,7 @@ def _parse_for(t, tok, var):
                 f"              | [\"s\", v] => (parseRat? v).map Py.Lambda.scalar\n"
                 f"              | [\"m\", v] => (parseRatss? v).map (fun l => Py.Lambda.matrix (Py.Arr2.ofLists l ((l.headD []).length)))\n"
                 f"              | _ => none)\n"
-                f"            pure (Py.ADMMArgs.mk w n r l)\n"
+                f"            pure (Py.ADMMArgs.mk w n r l 1000 false none)\n"
                 f"        | _ => none)", f"({var} : Py.ADMMArgs Rat)")
     if t == "sov":
         return (f"let {var} ← (match {tok}.splitOn \":\" with\n"
@@ -1275,6 +1654,9 @@ def exec_wrappers(available, known):
     for spec in SPECS:
         name = spec["func"]
         if name not in available:
+            continue
+        if spec.get("exec"):
+            arms.append(spec["exec"])    # a hand-written protocol form (function-valued parameters instantiated)
             continue
         if isinstance(spec.get("consts"), dict):
             continue                     # function-valued parameters have no protocol form: no driver op for this one
